@@ -111,6 +111,7 @@ func (k *Key) Secrets() map[string][]byte {
 		addInt("qinv", p.Precomputed.Qinv, 0)
 	case ed25519.PrivateKey:
 		out["seed"] = []byte(p.Seed())
+		out["key64"] = []byte(p)
 	}
 	return out
 }
@@ -177,6 +178,24 @@ func SecretPatterns(owner, name string, s []byte) []Pattern {
 	}
 	add(name+"/b64url-full", []byte(base64.RawURLEncoding.EncodeToString(s)))
 	add(name+"/b64std-full", []byte(base64.RawStdEncoding.EncodeToString(s)))
+	// what fmt prints for the Go values: %x of a *big.Int drops a leading zero nibble; %v of a []byte (ed25519.PrivateKey,
+	// a seed) is a decimal byte list "[1 2 3]", %#v a Go literal "{0x1, 0x2, 0x3}". Inner fragments (first and last
+	// element dropped: they touch the brackets / neighbours) are searched.
+	if h := hex.EncodeToString(s); len(h) > 1 && h[0] == '0' {
+		add(name+"/hex-lower-nolead", []byte(h[1:]))
+		add(name+"/hex-upper-nolead", []byte(strings.ToUpper(h[1:])))
+	}
+	if len(s) >= 8 {
+		dec := make([]string, 0, len(s))
+		gos := make([]string, 0, len(s))
+		for _, b := range s {
+			dec = append(dec, fmt.Sprintf("%d", b))
+			gos = append(gos, fmt.Sprintf("0x%x", b))
+		}
+		add(name+"/bytes-decimal-list", []byte(" "+strings.Join(dec[1:len(dec)-1], " ")+" "))
+		add(name+"/bytes-decimal-list-comma", []byte(","+strings.Join(dec[1:len(dec)-1], ",")+","))
+		add(name+"/bytes-go-literal", []byte(", "+strings.Join(gos[1:len(gos)-1], ", ")+", "))
+	}
 	return out
 }
 
